@@ -59,36 +59,68 @@ Print Assumptions C03_reconstruct_total_start_only_refuted.
     assignment with that makespan as objective value. *)
 Theorem C03_complete :
   forall (I : instance) (S : schedule),
-    valid I -> nonflex I -> (0 < num_ops I)%nat ->
+    valid I -> nonflex I ->
     feasible I S -> complete I S -> makespan I S <= total_duration I ->
     sat (sigma_of I S) (cp_encode I) /\ objective (sigma_of I S) (cp_encode I) = makespan I S.
 Proof. exact cp_complete. Qed.
 Print Assumptions C03_complete.
 
-(** The constraint set always has a solution (for an instance with at least
-    one operation), so INFEASIBLE is impossible and [NoSolutionFoundError] can
-    only come from a limit that stopped the search. *)
+(** The constraint set always has a solution, so INFEASIBLE is impossible and
+    [NoSolutionFoundError] can only come from a limit that stopped the search.
+    This holds for an instance without any operation too: [_set_objective]
+    emits [AddMaxEquality] only when there is an end time. (The check had
+    found that the library emitted the maximum over no expression, which is
+    unsatisfiable, so that [solve] raised NoSolutionFoundError on
+    [JobShopInstance([[]])]; the defect was repaired in the library and the
+    model follows the repaired code.) *)
 Theorem C03_satisfiable :
-  forall I : instance, valid I -> nonflex I -> (0 < num_ops I)%nat ->
-    exists sigma, sat sigma (cp_encode I).
-Proof. intros I Hv Hnf Hp. exists (sigma_seq I). apply cp_satisfiable; assumption. Qed.
+  forall I : instance, valid I -> nonflex I -> exists sigma, sat sigma (cp_encode I).
+Proof. intros I Hv Hnf. exists (sigma_seq I). apply cp_satisfiable; assumption. Qed.
 Print Assumptions C03_satisfiable.
 
-(** ... but NOT for an instance without any operation: [AddMaxEquality] over
-    no expression is unsatisfiable, so [solve] raises NoSolutionFoundError
-    although the empty schedule is feasible and complete (boundary finding). *)
-Theorem C03_satisfiable_without_operations_refuted :
-  exists I : instance, valid I /\ nonflex I /\ feasible I [] /\ complete I [] /\
-                       forall sigma, ~ sat sigma (cp_encode I).
+(** The instance without operations is solved: for EVERY instance with
+    [num_ops I = 0] (it is valid and non-flexible; [[[]]], [[]] and
+    [[[]; []]] are such instances) the encoding is satisfiable; every
+    satisfying assignment gives the makespan variable the value 0 and rebuilds
+    into the schedule without machine rows ([schedule == []], since
+    [num_machines = 0]), which is feasible and complete with makespan 0;
+    with status OPTIMAL [solve] returns it with metadata ("optimal", 0); and
+    0 is the optimum. *)
+Theorem C03_solves_the_instance_without_operations :
+  forall I : instance, num_ops I = 0%nat ->
+    valid I /\ nonflex I /\
+    (exists sigma, sat sigma (cp_encode I)) /\
+    (forall sigma, sat sigma (cp_encode I) ->
+       sigma (mkvar I) = 0 /\
+       (exists S, reconstruct I sigma = inl S /\ S = [] /\
+                  feasible I S /\ complete I S /\ makespan I S = 0) /\
+       (forall prev, snd (solve I prev StOptimal sigma) = inl ([], (1, 0)))) /\
+    is_opt I 0.
 Proof.
-  exists [[]]. split; [|split; [|split; [|split]]].
-  - apply validb_valid. reflexivity.
-  - apply nonflexb_spec. reflexivity.
-  - apply feasibleb_spec. reflexivity.
-  - intros j p o H. destruct j as [|[|j]]; destruct p; discriminate.
-  - intros sigma. apply cp_unsat_empty. reflexivity.
+  intros I Hn. destruct (cp_no_ops I Hn) as (Hsat & Hall & Hopt).
+  split; [apply no_ops_valid; exact Hn|]. split; [apply no_ops_nonflex; exact Hn|].
+  split; [exists (sigma_seq I); exact Hsat|]. split; [|exact Hopt].
+  intros sigma Hs. destruct (Hall sigma Hs) as [Hmk HS].
+  split; [exact Hmk|]. split; [exact HS|]. intros prev. apply solve_no_ops; assumption.
 Qed.
-Print Assumptions C03_satisfiable_without_operations_refuted.
+Print Assumptions C03_solves_the_instance_without_operations.
+
+(** The three instances of the repaired defect's regression test. *)
+Theorem C03_solves_the_instance_without_operations_concrete :
+  forall I : instance, In I [[[]]; []; [[]; []]] ->
+    (exists sigma, sat sigma (cp_encode I)) /\
+    (forall sigma, sat sigma (cp_encode I) ->
+       exists S, reconstruct I sigma = inl S /\ feasible I S /\ complete I S /\ makespan I S = 0) /\
+    is_opt I 0.
+Proof.
+  intros I HI.
+  assert (Hn : num_ops I = 0%nat) by (destruct HI as [<-|[<-|[<-|[]]]]; reflexivity).
+  destruct (C03_solves_the_instance_without_operations I Hn) as (_ & _ & Hsat & Hall & Hopt).
+  split; [exact Hsat|]. split; [|exact Hopt].
+  intros sigma Hs. destruct (Hall sigma Hs) as (_ & (S & HS & _ & Hf & Hc & Hmk) & _).
+  exists S. auto.
+Qed.
+Print Assumptions C03_solves_the_instance_without_operations_concrete.
 
 (** Lower bounds for EVERY feasible complete schedule (hence for whatever the
     solver returns, by [C03_sound]): the longest job and the most loaded machine. *)
@@ -107,7 +139,7 @@ Print Assumptions C03_lower_bounds.
 
 (** The horizon [total_duration] never cuts off the optimum. *)
 Theorem C03_horizon :
-  forall (I : instance) (c : Z), valid I -> nonflex I -> (0 < num_ops I)%nat -> is_opt I c ->
+  forall (I : instance) (c : Z), valid I -> nonflex I -> is_opt I c ->
     c <= total_duration I.
 Proof. exact cp_horizon. Qed.
 Print Assumptions C03_horizon.
@@ -246,6 +278,19 @@ Example C03_nonvacuous :
   reconstruct_gen KeyStart ex_I (all_keys ex_I) ex_sigma = inr CpValidation /\
   opt_bf ex_I = Some 4 /\ lower_bound ex_I = 3 /\ total_duration ex_I = 6 /\
   satb (sigma_seq ex_I) (cp_encode ex_I) = true.
+Proof. vm_compute. repeat split; reflexivity. Qed.
+
+(** The instances without operations: the model is the makespan variable with
+    domain [0, 0], no constraint, the objective; the all-zero assignment
+    satisfies it and rebuilds into the schedule without rows. *)
+Example C03_without_operations_nonvacuous :
+  cp_encode [[]] = mkcp [(0, 0)] [] (Some 0%nat) /\
+  cp_encode [] = mkcp [(0, 0)] [] (Some 0%nat) /\
+  cp_encode [[]; []] = mkcp [(0, 0)] [] (Some 0%nat) /\
+  satb (fun _ => 0) (cp_encode [[]]) = true /\ satb (fun _ => 1) (cp_encode [[]]) = false /\
+  reconstruct [[]] (fun _ => 0) = inl [] /\
+  snd (solve [[]] fresh_state StOptimal (fun _ => 0)) = inl ([], (1, 0)) /\
+  opt_bf [[]] = Some 0 /\ opt_bf [] = Some 0 /\ opt_bf [[]; []] = Some 0.
 Proof. vm_compute. repeat split; reflexivity. Qed.
 
 (** The feasible complete schedule of the example, read back as an assignment
